@@ -65,8 +65,8 @@ class Endpoint(object):
 
 
 def _bus_call(sim, node_name, obj, path, func, member, args):
-    ''' Invoke an exported method the way the bus would, even after the object
-    has left the bus registry (used by the harness acting as the user).
+    ''' Invoke an exported method the way the bus would (used by the harness acting as the user); a call to an
+    object that has left the bus gets the daemon's UnknownObject error and the method does not run.
     '''
     from vf.oracles import dbus_sig  # pylint: disable=import-outside-toplevel
     from dbus.bus import to_dbus_arg, history  # pylint: disable=import-outside-toplevel
@@ -82,6 +82,14 @@ def _bus_call(sim, node_name, obj, path, func, member, args):
         parts = dbus_sig.split_signature(in_sig)
         call_args = tuple(to_dbus_arg(part, arg) for part, arg in zip(parts, args))
     event = hist.add('call', path=path, iface=func._dbus_interface, member=member, args=args, obj=obj)
+    if hasattr(obj, '_locations') and not obj._locations:
+        # the object has left the bus: the daemon answers for it, the method is never run
+        import dbus.exceptions  # pylint: disable=import-outside-toplevel
+        err = dbus.exceptions.DBusException('Method "%s" on path "%s" does not exist: object is not exported' % (member, path))
+        err._dbus_error_name = 'org.freedesktop.DBus.Error.UnknownObject'
+        event['raised'] = err
+        hist.add('error', path=path, member=member, exc_type='UnknownObject', exc=str(err)[:200], obj=obj)
+        raise err
     with sim.as_node(node_name):
         try:
             retval = getattr(obj, member)(*call_args)
